@@ -520,9 +520,11 @@ fn run_rustfmt(
         status.push(command.wait()?);
     }
 
+    // A rustfmt that was killed by a signal has no exit code; it failed nonetheless.
     Ok(status
         .iter()
-        .filter_map(|s| if s.success() { None } else { s.code() })
+        .filter(|s| !s.success())
+        .map(|s| s.code().unwrap_or(FAILURE))
         .next()
         .unwrap_or(SUCCESS))
 }
